@@ -7,6 +7,7 @@
    gamma(Norm) (verdict) and gamma(AsBuilt) (known-finding matching).                                            *)
 EXTENDS CddTypes, TLC, Json
 INSTANCE DocRules
+DL == INSTANCE DocLines
 
 CONSTANTS MaxParams,        \* 1 or 2 (3+ by -simulate)
           Reduced,          \* TRUE: parameters after the first come from a reduced set (keeps the product small)
@@ -35,31 +36,38 @@ ParamSeqs == {<<>>} \cup {<<p>> : p \in DocParams}
                    ELSE {})
 InDomain(cfg, ps) == cfg.style = "rest" \/ SigLegal(ps)       \* Google/NumPy: defaults form a suffix
 
-VARIABLES cfg, i, pc, out, fired
-vars == <<cfg, i, pc, out, fired>>
+VARIABLES cfg, i, pc, lines, out, fired
+vars == <<cfg, i, pc, lines, out, fired>>
 
 Init == /\ cfg \in {CfgSeq[k] : k \in {j \in 1..Len(CfgSeq) : j % NShards = Shard}}
         /\ \E ps \in ParamSeqs, r \in Rets, d \in {"one"} :
               /\ InDomain(cfg, ps)
               /\ i = [doc |-> d, params |-> ps, ret |-> r]
-        /\ pc = "start" /\ out = "none" /\ fired = {}
+        /\ pc = "start" /\ lines = <<>> /\ out = "none" /\ fired = {}
 
-Round == /\ pc = "start"
+\* Emit: the docstring as a sequence of line records (as built when deviations are enabled)
+Emit == /\ pc = "start"
+        /\ lines' = DL!EmitLines(cfg, i, Enabled # {})
+        /\ pc' = "emitted" /\ UNCHANGED <<cfg, i, out, fired>>
+\* Parse: the interface read back
+Parse == /\ pc = "emitted"
          /\ LET ab == AsBuilt(Enabled, cfg, i) IN out' = ab.out /\ fired' = ab.fired
-         /\ pc' = "done" /\ UNCHANGED <<cfg, i>>
+         /\ pc' = "done" /\ UNCHANGED <<cfg, i, lines>>
 
-Next == Round
+Next == Emit \/ Parse
 Spec == Init /\ [][Next]_vars
 
 \* the property (on the ideal rules: Enabled = {}), and its as-built weakening
 RoundTrip == pc = "done" => out = Norm(cfg, i)
 RoundTripOrDeviation == pc = "done" => (out = Norm(cfg, i) \/ fired # {})
+\* the line-level theorem: the ideal emitter's lines, read by the line parser, agree with Norm
+LinesTheorem == pc = "emitted" => DL!RoundTripLines(cfg, i)
 
 ToSeq(S) == CHOOSE f \in [1..Cardinality(S) -> S] : \A a, b \in 1..Cardinality(S) : a # b => f[a] # f[b]
 JP(e) == [present |-> e.present, wild |-> e.wild, typs |-> ToSeq(e.typs), def |-> e.def, doc |-> e.doc]
 JI(x) == [raises |-> x.raises, wild |-> x.wild, doc |-> x.doc, params |-> [k \in 1..Len(x.params) |-> JP(x.params[k])], ret |-> JP(x.ret)]
 Dump == pc = "done" =>
-          PrintT(ToJson([cfg |-> cfg,
+          PrintT(ToJson([cfg |-> cfg, lines |-> lines,
                          i |-> i,
                          exp |-> JI(Norm(cfg, i)), asb |-> JI(out), devs |-> ToSeq(fired)]))
 =====================================================================================
